@@ -298,13 +298,13 @@ def run(pid, tier):
             ngen = len(gen_execs)
             execs += gen_execs
         lines = gen.join(execs).split("\n")
-        strict = pid in ("C04", "C01")
+        strict = pid in ("C04", "C01", "C03", "C10")
         api = apicheck.run_api(bdir, drv, lines, spec="ApiTrace+LdpcItTrace" if strict else "ApiTrace",
                                drv_env={"OF_DRIVER_ITPROJ": "48"} if strict else None)
         apicheck.judge(pid, api, verdict)
         rc = verdict.finish()
         for dline in api["drift"][:5]:
-            print("DRIFT module=LdpcIt %s" % dline)
+            print("DRIFT module=LdpcIt/LdpcMl %s" % dline)
         distinct = len({tuple(e) for e in execs})
         nontrivial = apicheck.nontrivial_distinct(api, NONTRIVIAL.get(pid, lambda x: x[6] > 3))
         cov = {
@@ -318,7 +318,7 @@ def run(pid, tier):
             "model_runs": mc_runs,
             "spec_counters": apicheck.stats_summary(api),
             "tlc_generated_behaviours_replayed": ngen,
-            "layer_b_steps_matched": api.get("itsteps", 0), "layer_b_bound": (len(api["drift"]) == 0) if strict else None,
+            "layer_b_steps_matched": api.get("itsteps", 0), "layer_b_finish_calls_matched": api.get("mlsteps", 0), "layer_b_bound": (len(api["drift"]) == 0) if strict else None,
             "drift_lines": len(api["drift"]),
             "trace_lines": api["lines"],
             "distinct_executions": distinct,
